@@ -9,7 +9,8 @@ different PYTHONHASHSEED and working directory; all four language outputs; the v
 real Client puts on the wire for every generated class.
 
 Oracle (metamorphic): equal (name, id, ordered (field, type text) list) => equal hash everywhere;
-any single edit => a different hash (all variants of one base pairwise distinct); Python
+any single edit - thorough: any two edits of a base with <= 2 fields - that changes the (name, id, fields)
+text => a different hash (all variants of one base pairwise distinct); Python
 type_hash == C HASH_* == JS RTMA.HASH.* == MATLAB RTMA.hash.*; Client.send_message stamps
 header.version == type_hash.
 """
@@ -132,9 +133,9 @@ def relocations(name: str, mid: int, fields: Fields) -> List[Tuple[str, Dict[str
 
 
 def check_base(args) -> Dict[str, Any]:
-    bi, fields = args
+    bi, fields, depth = args
     problems = []
-    stats = {"parses": 0, "edits": 0, "relocations": 0}
+    stats = {"parses": 0, "edits": 0, "relocations": 0, "double_edits": 0}
     name, mid = f"BASE{bi}", 3000 + bi
     d = core.scratch_dir("c13")
     try:
@@ -142,15 +143,30 @@ def check_base(args) -> Dict[str, Any]:
         sd = {"struct_defs": STRUCTS}
         h0 = hash_of({"root.yaml": {**sd, "message_defs": msg_section(name, mid, fields)}}, name, d, **kw)
         stats["parses"] += 1
-        seen = {h0[:8]: "base"}
-        full = {h0: "base"}
-        for label, n2, i2, f2 in edits(name, mid, fields):
-            h = hash_of({"root.yaml": {**sd, "message_defs": msg_section(n2, i2, f2)}}, n2, d, **kw)
-            stats["parses"] += 1
-            stats["edits"] += 1
-            if h[:8] in seen:
-                problems.append({"kind": "edit-keeps-hash", "base": [name, mid, list(fields)], "edit": label, "same_as": seen[h[:8]], "hash": h[:8]})
-            seen[h[:8]] = label
+        # the map (name, id, ordered fields) <-> hash must be a bijection over everything reachable by 1 (and 2) edits
+        by_spec = {(name, mid, fields): (h0, "base")}
+        by_hash = {h0[:8]: ((name, mid, fields), "base")}
+        level = [((name, mid, fields), "")]
+        for dep in range(depth):
+            nxt = []
+            for (sn, si, sf), path in level:
+                for label, n2, i2, f2 in edits(sn, si, sf):
+                    lab = (path + " ; " if path else "") + label
+                    spec = (n2, i2, f2)
+                    if len({fn for fn, _ in f2}) != len(f2):
+                        continue  # two fields of one name: not a definition
+                    if spec in by_spec:
+                        continue  # the same definition text reached another way: hashed once (determinism is checked elsewhere)
+                    h = hash_of({"root.yaml": {**sd, "message_defs": msg_section(n2, i2, f2)}}, n2, d, **kw)
+                    stats["parses"] += 1
+                    stats["edits" if dep == 0 else "double_edits"] += 1
+                    if h[:8] in by_hash:
+                        problems.append({"kind": "edit-keeps-hash", "base": [name, mid, list(fields)], "edit": lab, "same_as": by_hash[h[:8]][1],
+                                         "hash": h[:8], "depth": dep + 1})
+                    by_spec[spec] = (h, lab)
+                    by_hash.setdefault(h[:8], (spec, lab))
+                    nxt.append((spec, lab))
+            level = nxt
         for label, files, root, kw2 in relocations(name, mid, fields):
             k3 = dict(kw)
             k3.update(kw2)
@@ -324,7 +340,8 @@ def run(tier: str) -> int:
         bs_eval = [b for i, b in enumerate(bs) if len(b) <= 2 or i % 3 == 0]
     else:
         bs_eval = bs
-    res = core.pmap(check_base, [(bi, f) for bi, f in enumerate(bs) if f in bs_eval])
+    # thorough: every PAIR of edits of the bases with <= 2 fields as well (renames that swap, retype + rename, insert + delete, ...)
+    res = core.pmap(check_base, [(bi, f, 2 if (tier == "thorough" and len(f) <= 2) else 1) for bi, f in enumerate(bs) if f in bs_eval])
     core.close_pool()
     totals: Dict[str, int] = {}
     allp: List[Dict[str, Any]] = []
